@@ -23,6 +23,7 @@ type dExec struct {
 	dead      bool
 	finds     []finding
 	cnt       counters
+	c07seen   bool
 }
 
 func (e *dExec) find(prop, what, site, detail string) {
@@ -442,6 +443,11 @@ func (e *dExec) classify(err error, g int64, site string) {
 				fmt.Sprintf("g=%d B=%d W=%d", g, e.buf.BufferSize, e.buf.WindowSize))
 		} else {
 			e.cnt.inc("d.matchLen.neverfits")
+			if !e.c07seen {
+				e.c07seen = true
+				e.find("C07", "Decoder refuses a block emitted by a parser of this module", site,
+					fmt.Sprintf("err=matchLen g=%d B=%d W=%d", g, e.buf.BufferSize, e.buf.WindowSize))
+			}
 		}
 	case "full":
 		if e.dd {
